@@ -114,19 +114,25 @@ def _drains_until_empty(ctx, ck, K, rid, ra, me, h):
         if not gs:
             return False
         a = gs[0].a
-        if not (isinstance(a, tuple) and a[0] == "variantof" and isinstance(a[1], tuple) and a[1][0] == "call" and method_name(a[1][1]) in ("first", "last")
-                and len(a[1][2]) == 1 and list_of(a[1][2][0]) == "IP" and not (isinstance(mir.strip(a[1][2][0]), tuple) and mir.strip(a[1][2][0])[0] == "clone")):
+        # (the walker reads `xs.first()` / `xs.last()` as: None <=> xs is empty, Some(&xs[0]) / Some(&xs[len-1]) otherwise)
+        if not (isinstance(a, tuple) and a[0] == "empty" and list_of(a[1]) == "IP" and not (isinstance(mir.strip(a[1]), tuple) and mir.strip(a[1])[0] == "clone")):
             return False
-        probe = a[1]
+        probe = mir.strip(a[1])
     if probe is None:
         return False
-    k_ = T("field", T("variant", probe, "Some"), "0")
+    firsts = [mir.strip(e.c) for p in paths for e in p.events if e.kind == "call" and method_name(e.a) in ("first", "last") and e.b and mir.strip(e.b[0]) == probe]
+    if not firsts:
+        return False
+    which = {method_name(e.a) for p in paths for e in p.events if e.kind == "call" and method_name(e.a) in ("first", "last") and e.b and mir.strip(e.b[0]) == probe}
+    if len(which) != 1:
+        return False
+    k_ = T("index", probe, T("const", T("int", 0, "usize"))) if which == {"first"} else T("index", probe, T("binop", "Sub", T("len", probe), T("const", T("int", 1, "usize"))))
     ok_step = ok_exit = True
     n_cont = n_exit = 0
     acc = None
     for p in paths:
         gs = [e for e in p.events if e.kind == "guard"]
-        if gs[0].b == "Some":
+        if gs[0].b is False:
             n_cont += 1
             fx = K._one(ra, p, "x", None)
             calls = [e for e in fx.effects if e.kind == "CALL" and e.key == MOD + "Mapper::step"]
